@@ -27,7 +27,9 @@ PROGRAM = [
     ("s0", "Sum", {"InFieldNames": ["r0", "r1"]}, False, "data"),
     ("n0", "FuzzyNot", {"InFieldName": "f0"}, True, "data"),
     ("pv", "PrintVars", {"InFieldNames": ["s0"], "OutFileName": WORK + "/print.txt"}, False, "bool"),
+    ("q0", "NoOutput", {}, False, None),      # a plug-in command that declares no output kind
 ]
+LIBS = ("mpilot.libraries.eems.basic", "mpilot.libraries.eems.csv", "mpilot.libraries.eems.fuzzy", "mpsim_plain")
 CMD_INFO = {n: {"fuzzy": fz, "out": out} for n, c, a, fz, out in PROGRAM}
 IN_CSV = "a,b\n1,2\n3,4\n0,5\n"
 
@@ -60,7 +62,8 @@ def _gen_param(rng, depth=0):
     return {"cls": "Number"}
 
 
-STRS = ("12", "-3", "5.4", "+7", "0", "1", "true", "False", "TRUE", "maybe", "abc", "", "in.csv", "nofile.csv",
+STRS = ("12", "-3", "5.4", "+7", "0", "1", "2.0", "9007199254740993", "-0.0", "007", "true", "False", "TRUE", "maybe",
+        "abc", "", "in.csv", "nofile.csv", "relwork_x.csv", "relwork/in.csv", "/sim/work_in.csv",
         WORK + "/in.csv", WORK + "/nofile.csv", "sub/x.csv", "Float", "Integer", "Positive Float", "Fuzzy", "Complex",
         "r0", "f0", "s0", "pv", "nosuch", "1e3", " 4 ", "0x10", "nan", "1_000")
 
@@ -121,7 +124,8 @@ def _gen_value0(rng, param=None, depth=0):
                                {"t": "int", "v": 0}, {"t": "int", "v": 1}, {"t": "str", "v": "1"}, {"t": "str", "v": "0"}])
         if c == "Path":
             return {"t": "str", "v": rng.choice(["in.csv", "nofile.csv", WORK + "/in.csv", WORK + "/nofile.csv",
-                                                 "sub/x.csv", WORK + "/print.txt"])}
+                                                 "sub/x.csv", WORK + "/print.txt", "relwork_x.csv", "relwork/in.csv",
+                                                 "/sim/work_in.csv"])}
         if c == "Result":
             return rng.choice([{"t": "str", "v": rng.choice(list(CMD_INFO) + ["nosuch"])},
                                {"t": "cmd", "v": rng.choice(list(CMD_INFO))}])
@@ -369,6 +373,10 @@ def expect(spec, value, ctx):
             return ("error", ("ResultNotFuzzy",))
         if spec.get("fz") is False and info["fuzzy"]:
             return ("error", ("ResultIsFuzzy",))
+        if info["out"] is None and spec.get("out") is not None:
+            # the producer declares no output kind: nothing can be checked before it has run; after it has run its
+            # value is checked.  Not judged on value - only purity (it must not be executed by the cleaning) is.
+            return UNJUDGED
         if spec.get("out") is not None and spec["out"] != info["out"]:
             # finished results are checked by value, unfinished ones by declared kind
             return ("error", ("ResultTypeNotValid", "ParameterNotValid"))
@@ -436,7 +444,7 @@ def execute(sc):
     fs = SimFS(log, res, files={WORK + "/in.csv": IN_CSV}, dirs=[WORK, WORK + "/sub", "/sim/relwork"])
     mon = ExecMonitor(log)
     with Hygiene(), fs, StdCapture(log):
-        program = Program(working_dir=sc.get("wd"))
+        program = Program(libraries=LIBS, working_dir=sc.get("wd"))
         for name, cmd, args, fz, out in PROGRAM:
             program.add_command(program.find_command_class(cmd), name, copy.deepcopy(args))
         mon.install(list(program.command_library.values()))
@@ -614,7 +622,7 @@ def _short(v):
 
 def worker_init(scratch):
     from mpilot.program import Program
-    Program()
+    Program(libraries=LIBS)
 
 
 def shrink_candidates(sc):
